@@ -75,7 +75,14 @@ def main():
 
     exit_code = 0
     undecided = []
+    violated = False
     for tid, err in errors:
+        if 'KeyError' in err and ': not found in ' in err:
+            # a function under contract was renamed or removed: its obligations cannot be generated -> undecided
+            what = err.strip().splitlines()[-1]
+            rep.say(f'UNDECIDED property={prop} task={tid}: a function under contract no longer exists ({what})')
+            undecided.append(tid + ':function-under-contract-exists')
+            continue
         rep.say(f'CHECKER-ERROR property={prop} task={tid}\n{err}')
         exit_code = 3
 
@@ -173,7 +180,7 @@ def main():
                     (f'confirmed: {res.get("detail")}' if confirmed else f'not reproduced ({res.get("detail") or res.get("error")})'))
             rep.violation(path, confirmed)
             replays.append(path)
-            exit_code = max(exit_code, 1) if exit_code in (0, 1) else exit_code
+            violated = True
 
     # known findings: replay each recorded witness; print only while it still fails
     for e in findings:
@@ -191,6 +198,9 @@ def main():
 
     if undecided and exit_code == 0:
         exit_code = 2
+    if violated:
+        # a refuted obligation outranks whatever else went wrong (e.g. the must-fail clause behind it was never reached)
+        exit_code = 1
     funcs = []
     rp = repo()
     for q in getattr(mod, 'FUNCTIONS', []):
